@@ -28,11 +28,13 @@ func getSortedKeys(srcMap map[string]interface{}) *sort.StringSlice {
 	if length > 1 {
 		sortKeys.Sort()
 	}
+	verifHook(8, sortKeys)
 	return sortKeys
 }
 
 func putSortSlice(sortKeys *sort.StringSlice) {
 	if sortKeys != nil {
+		verifHook(9, sortKeys)
 		sortSliceSyncPool.Put(sortKeys)
 	}
 }
@@ -42,6 +44,7 @@ func getContainer() *bufferContainer {
 }
 
 func putContainer(container *bufferContainer) {
+	verifHook(7, container)
 	container.result = container.result[:0]
 	resultSyncPool.Put(container)
 }
